@@ -77,7 +77,7 @@ def dtOut : Option (Option Int) → String
   | some none => "err"
   | none => "unmodelled"
 
-def dstep (s : Unit) (toks : List String) : Unit × String :=
+def dstep0 (s : Unit) (toks : List String) : Unit × String :=
   (s, match toks with
   | ["reset"] => "ok"
   | ["rt", "nodeid", ns, k, v] =>
@@ -150,6 +150,179 @@ def dstep (s : Unit) (toks : List String) : Unit × String :=
       else "bad-op"
     | _, _, _, _, _, _, _, _ => "bad-op"
   | _ => "bad-op")
+
+
+/-! ### arm tags: which branch of the modelled code an op takes (boundaries of every comparison separately) -/
+
+/-- `str::parse::<uN>` -/
+def armsU (pref : String) (max : Nat) (cs : List Char) : List String :=
+  let ds := stripPlus cs
+  (if cs.length ≠ ds.length then [pref ++ "-plus"] else []) ++
+  (if ds.isEmpty then [pref ++ "-empty"]
+   else if !ds.all isDigit then [pref ++ "-nondigit"]
+   else if digitsVal ds = max + 1 then [pref ++ "-max+1"]
+   else if digitsVal ds > max then [pref ++ "-overflow"]
+   else if digitsVal ds = max then [pref ++ "-max"]
+   else if digitsVal ds = 0 then [pref ++ "-zero"]
+   else [pref ++ "-ok"])
+
+def armsGuid (s : List Nat) : List String :=
+  let r := if (parseGuid s).isSome then "-ok" else "-err"
+  if s.length = 32 then ["guid-simple" ++ r]
+  else if s.length = 36 then
+    [(if s[8]? = some 45 ∧ s[13]? = some 45 ∧ s[18]? = some 45 ∧ s[23]? = some 45 then "guid-hyph" ++ r else "guid-hyph-badhyphen")]
+  else if s.length = 38 then [(if s.head? = some 123 ∧ s.getLast? = some 125 then "guid-braced" ++ r else "guid-38-nobraces")]
+  else if s.length = 45 then [(if s.take 9 = urnPrefix then "guid-urn" ++ r else "guid-45-nourn")]
+  else ["guid-badlen"]
+
+def armsB64 (s : List Nat) : List String :=
+  match b64Decode s with
+  | some _ =>
+    if s.isEmpty then ["b64-empty"]
+    else if s.reverse.take 2 = [61, 61] then ["b64-pad2"]
+    else if s.reverse.take 1 = [61] then ["b64-pad1"]
+    else ["b64-pad0"]
+  | none =>
+    if s.length % 4 ≠ 0 then ["b64-err-len"]
+    else if (s.filter (· ≠ 61)).all (fun b => (b64Val b).isSome) then ["b64-err-padding-or-bits"]
+    else ["b64-err-symbol"]
+
+def armsIdent (s : List Char) : List String :=
+  if utf8Len s < 2 then [if s.isEmpty then "id-empty" else "id-short"]
+  else match splitAtByte s 2 with
+    | none => ["id-noboundary"]
+    | some (k, v) =>
+      if k = ['i', '='] then "id-i" :: armsU "u32" 4294967295 v
+      else if k = ['s', '='] then [if v.isEmpty then "id-s-empty" else "id-s"]
+      else if k = ['g', '='] then "id-g" :: armsGuid (utf8 v)
+      else if k = ['b', '='] then "id-b" :: armsB64 (utf8 v)
+      else ["id-otherkind"]
+
+def armsNodeId (cs : List Char) : List String :=
+  match nodeIdRe true cs with
+  | none => ["nid-nomatch"]
+  | some (none, t) => "nid-nogroup" :: armsIdent t
+  | some (some d, t) =>
+    "nid-group" :: armsU "ns" 65535 d ++ (if (parseUnsigned 65535 d).isSome then armsIdent t else [])
+
+def containsSub (pat : List Char) : List Char → Bool
+  | [] => pat.isEmpty
+  | c :: cs => (stripPrefix? pat (c :: cs)).isSome || containsSub pat cs
+
+def armsExp (cs : List Char) : List String :=
+  match expRe true true cs with
+  | none => ["exp-nomatch"]
+  | some c =>
+    let a1 := armsU "svr" 4294967295 c.svr
+    let a2 := match c.ns, c.nsu with
+      | some d, _ => "exp-ns" :: armsU "ns" 65535 d
+      | none, some u => "exp-nsu" :: (if containsSub ['%', '3', 'b'] u then ["exp-nsu-esc3b"] else []) ++
+          (if containsSub ['%', '2', '5'] u then ["exp-nsu-esc25"] else [])
+      | none, none => ["exp-bare"]
+    a1 ++ a2 ++ (if (parseExp cs).isErr then [] else armsIdent c.t)
+
+def armsDimText (s : List Char) : List String :=
+  if s.isEmpty then ["nr-part-empty"]
+  else match spanP isDigit s with
+    | (d1, []) =>
+      if d1.length > 10 then ["nr-11digits"] else (if d1.length = 10 then ["nr-10digits"] else []) ++ armsU "idx" 4294967295 d1
+    | (d1, ':' :: r) =>
+      if d1.length < 1 then ["nr-min-empty"] else if d1.length > 10 then ["nr-11digits"]
+      else if r.length < 1 then ["nr-max-empty"] else if r.length > 10 then ["nr-11digits"]
+      else if !r.all isDigit then ["nr-max-nondigit"]
+      else if digitsVal r > 4294967295 then ["nr-max-overflow"]
+      else if digitsVal d1 = digitsVal r then ["nr-min-eq-max"]
+      else if digitsVal d1 > digitsVal r then ["nr-min-gt-max"]
+      else if digitsVal d1 + 1 = digitsVal r then ["nr-range-adjacent"]
+      else ["nr-range-ok"]
+    | _ => ["nr-part-garbage"]
+
+def armsRange (s : List Char) : List String :=
+  if s.isEmpty then ["nr-empty"]
+  else
+    let parts := splitOnChar ',' s
+    if parts.length = 1 then "nr-one" :: armsDimText (parts.headD [])
+    else if parts.length > maxIndices then [if parts.length = maxIndices + 1 then "nr-parts-11" else "nr-parts-many"]
+    else (if parts.length = 2 then "nr-parts-2" else if parts.length = maxIndices then "nr-parts-10" else "nr-parts-mid") ::
+      (if (parseAll parts).isSome then ["nr-multi-ok"] else ["nr-multi-err"]) ++ armsDimText (parts.headD [])
+
+def armsDtFields (y m d h mi s fl : Nat) : List String :=
+  (if m < 1 then ["dt-month-0"] else if m > 12 then ["dt-month-13+"] else
+   if d < 1 then ["dt-day-0"] else if d > daysInMonth y m then [if d = daysInMonth y m + 1 then "dt-day-last+1" else "dt-day-big"] else
+   if h > 23 then [if h = 24 then "dt-hour-24" else "dt-hour-big"] else
+   if mi > 59 then [if mi = 60 then "dt-min-60" else "dt-min-big"] else
+   if s > 60 then [if s = 61 then "dt-sec-61" else "dt-sec-big"] else
+   (if s = 60 then ["dt-sec-60"] else if s = 59 then ["dt-sec-59"] else []) ++
+   (if d = daysInMonth y m then ["dt-day-last"] else []) ++
+   (if m = 2 ∧ d = 29 then ["dt-feb29"] else []) ++
+   (if h = 23 then ["dt-hour-23"] else []) ++ (if mi = 59 then ["dt-min-59"] else []) ++
+   (if y < 1601 then ["dt-before-1601"] else if y = 1601 then ["dt-year-1601"] else if y = 9999 then ["dt-year-9999"] else ["dt-ok"])) ++
+  [s!"dt-frac{fl}"]
+
+def armsTicks (t : Nat) : List String :=
+  let nanos := t % ticksPerDay % ticksPerSec * 100
+  (if nanos = 0 then ["tick-frac0"] else if nanos % 1000000 = 0 then ["tick-frac3"] else if nanos % 1000 = 0 then ["tick-frac6"] else ["tick-frac9"]) ++
+  (if t = 0 then ["tick-zero"] else if t = endTicks then ["tick-end"] else []) ++
+  (let (y, m, d) := civilFromDays (t / ticksPerDay)
+   (if m = 2 ∧ d = 29 then ["tick-feb29"] else []) ++ (if m = 12 ∧ d = 31 then ["tick-dec31"] else []) ++
+   (if m = 1 ∧ d = 1 then ["tick-jan1"] else []) ++ (if isLeap y then ["tick-leapyear"] else ["tick-commonyear"]))
+
+def armsIdentVal (i : Ident) : List String :=
+  match i with
+  | .numeric _ => ["v-i"]
+  | .str none => ["v-s-null"]
+  | .str (some s) => [if s.isEmpty then "v-s-empty" else if s.contains '\n' then "v-s-newline" else "v-s"]
+  | .guid _ => ["v-g"]
+  | .bytes none => ["v-b-null"]
+  | .bytes (some b) => [if b.isEmpty then "v-b-empty" else s!"v-b-len{b.length % 3}"]
+
+def armsNR (r : NR) : List String :=
+  (if isValidNR true r then ["nrv-valid"] else ["nrv-invalid"]) ++
+  (match r with
+   | .one .none => ["nrv-none"]
+   | .one (.index _) => ["nrv-index"]
+   | .one (.range a b) => [if a < b then "nrv-range" else if a = b then "nrv-range-eq" else "nrv-range-gt"]
+   | .multi ds =>
+     [if ds.length = 0 then "nrv-multi-0" else if ds.length = 1 then "nrv-multi-1" else if ds.length = 2 then "nrv-multi-2"
+      else if ds.length = 10 then "nrv-multi-10" else if ds.length = 11 then "nrv-multi-11" else if ds.length > 11 then "nrv-multi-many" else "nrv-multi-mid"] ++
+     (if ds.any (fun d => d == .none) then ["nrv-multi-has-none"] else []) ++
+     (if ds.any (fun d => !dimValid d) then ["nrv-multi-has-bad-range"] else []))
+
+def armsOf (toks : List String) : List String :=
+  match toks with
+  | ["rt", "nodeid", ns, k, v] =>
+    match ns.toNat?, identTok? k v with
+    | some ns, some i => (if ns = 0 then "rt-nid-ns0" else if ns = 65535 then "rt-nid-ns-max" else "rt-nid-nsN") :: armsIdentVal i
+    | _, _ => []
+  | ["rt", "ident", k, v] => (identTok? k v).elim [] (fun i => "rt-ident" :: armsIdentVal i)
+  | ["rt", "exp", svr, uri, ns, k, v] =>
+    match svr.toNat?, optStrTok? uri, ns.toNat?, identTok? k v with
+    | some svr, some uri, some ns, some i =>
+      [match uri with
+        | none => "rt-exp-nouri"
+        | some u => if u.isEmpty then "rt-exp-emptyuri" else if u.contains ';' ∨ u.contains '%' then "rt-exp-uri-escaped" else "rt-exp-uri",
+       if ns = 0 then "rt-exp-ns0" else "rt-exp-nsN",
+       if svr = 0 then "rt-exp-svr0" else if svr = 4294967295 then "rt-exp-svr-max" else "rt-exp-svrN"] ++ armsIdentVal i
+    | _, _, _, _ => []
+  | ["rt", "guid", _] => ["rt-guid"]
+  | ["rt", "range", r] => (nrTok? r).elim [] armsNR
+  | ["rt", "dt", t] => (t.toNat?).elim [] (fun t => if t ≤ endTicks then armsTicks t else [])
+  | ["parse", "nodeid", s] => (strTok? s).elim [] armsNodeId
+  | ["parse", "ident", s] => (strTok? s).elim [] armsIdent
+  | ["parse", "exp", s] => (strTok? s).elim [] armsExp
+  | ["parse", "guid", s] => (strTok? s).elim [] (fun cs => armsGuid (utf8 cs))
+  | ["parse", "range", s] => (strTok? s).elim [] armsRange
+  | ["parse", "dt", _] => ["parse-dt-unmodelled"]
+  | ["parse", "dtp", y, m, d, h, mi, s, fl, _] =>
+    match y.toNat?, m.toNat?, d.toNat?, h.toNat?, mi.toNat?, s.toNat?, fl.toNat? with
+    | some y, some m, some d, some h, some mi, some s, some fl => armsDtFields y m d h mi s fl
+    | _, _, _, _, _, _, _ => []
+  | _ => []
+
+def dstep (s : Unit) (toks : List String) : Unit × String :=
+  let r := (dstep0 s toks).2
+  let arms := armsOf toks
+  (s, if r = "bad-op" ∨ arms.isEmpty then r else r ++ " @@ " ++ ",".intercalate arms)
 
 def driver : Driver := { σ := Unit, init := (), step := dstep }
 
